@@ -369,8 +369,10 @@ def c17():
                      "C17_seq_last_branching_factor_wins", "C17_seq_tolerance_survives",
                      "C17_tolerance_only_call", "C17_call_idempotent",
                      "C17_name_only_equals_ctor_with_kept_tolerance", "C17_full_set_merge_equals_ctor",
-                     "C17_seq_nonvacuous"],
-        "model_files": ["Model/ObsCfg.v", "Gen/GConfig.v", "Proofs/GenTieConfig.v"],
+                     "C17_seq_nonvacuous", "C17_source_reset_spares_config",
+                     "C17_source_config_fields", "C17_source_reset_clears_data"],
+        "model_files": ["Model/ObsCfg.v", "Gen/GConfig.v", "Proofs/GenTieConfig.v",
+                        "Gen/GReset.v", "Proofs/GenTieReset.v"],
         "suites": [suite_config.suite_config, suite_config.suite_reset],
         "search": suite_config.search_c17,
         "replay": suite_config.replay_c17,
